@@ -75,3 +75,5 @@ def run(chk):
     chk.notes["n_range"] = [0, nmax]
     chk.notes["k_values"] = "0..=n+2, 63, 64, 65, usize::MAX"
     chk.floor("C11 constructors", sum(1 for k in ("dyn", "static") for m in ("zero", "one", "nth_var", "parity", "majority", "threshold", "equals", "symmetric") if m in env.kinds[k].methods), 16)
+    from ..history import history_rule
+    history_rule(chk, "C11.H", F.load("dbg"))
